@@ -1167,3 +1167,5 @@ def run(ctx):
     region_rule(ctx, P, fns)
     unwind_rule(ctx, P, fns)
     partial_rule(ctx, P)
+    from . import c10
+    c10.span_rule(ctx, P, fns, floor=12)
